@@ -11,7 +11,7 @@ use serde_json::{json, Value};
 pub struct C03;
 
 /// oracle of the small-scope search: Ok(non-trivial?) or the discrepancy
-fn small_oracle(docs: &[&crate::model::Node], bytes: &[Vec<u8>]) -> Result<bool, String> {
+pub fn small_oracle(docs: &[&crate::model::Node], bytes: &[Vec<u8>]) -> Result<bool, String> {
     let occs: Vec<&crate::model::Node> = docs.to_vec();
     let schema = crate::refinf::infer(&docs[0].name, &occs);
     let root = crate::sut::parse_seq(bytes).map_err(|(i, e)| format!("document #{} rejected: {}", i + 1, e))?;
